@@ -577,6 +577,64 @@ Definition name_id_mapping_response_fixed (entityid : string) (name_id : option 
   | None => None
   end.
 
+(* ------------------------------------------------------------------ metadata.entity_descriptor (the shell) *)
+Definition MD_NS := "urn:oasis:names:tc:SAML:2.0:metadata".
+Definition XML_NS := "http://www.w3.org/XML/1998/namespace".
+Definition qm (l : string) := Q MD_NS l.
+
+(* a configured name: a plain str, or a (text, lang) pair *)
+Inductive locv := LStr (s : string) | LPair (text lang : string).
+
+(* metadata._localized_name: try (text, lang) = val, on ValueError text=val, lang="en" — a str of exactly
+   two characters unpacks as well *)
+Definition localized (v : locv) : string * string :=
+  match v with
+  | LPair t l => (t, l)
+  | LStr s => match s with
+              | String a (String b EmptyString) => (String a EmptyString, String b EmptyString)
+              | _ => (s, "en")
+              end
+  end.
+
+(* one key of the organization dict: absent, a str / tuple, or a list of those *)
+Inductive orgv := OrgAbsent | OrgOne (v : locv) | OrgList (l : list locv).
+
+Definition org_values (o : orgv) : list (string * string) :=
+  match o with OrgAbsent => [] | OrgOne v => [localized v] | OrgList l => map localized l end.
+
+Definition o_localized (k : nat) (tl : string * string) : obj :=
+  Obj k [(Q XML_NS "lang", Some (snd tl))] (Some (fst tl)) [] [].
+
+(* do_organization_info *)
+Definition organization (n d u : orgv) : obj :=
+  Obj k_md_Organization [] None
+      [(qm "OrganizationName", map (o_localized k_md_OrganizationName) (org_values n));
+       (qm "OrganizationDisplayName", map (o_localized k_md_OrganizationDisplayName) (org_values d));
+       (qm "OrganizationURL", map (o_localized k_md_OrganizationURL) (org_values u))] [].
+
+Record ed_args := {
+  ed_entityid : string;
+  ed_valid_until : option string;            (* in_a_while(hours=valid_for) when valid_for is set *)
+  ed_org : option (orgv * orgv * orgv);
+  ed_contacts : list tree;                   (* do_contact_persons_info: as serialised *)
+  ed_ext : list tree;                        (* content of md:Extensions ([]: no Extensions member) *)
+  ed_idp : option tree; ed_sp : option tree; ed_aq : option tree; ed_aa : option tree; ed_pdp : option tree
+}.
+
+Definition entity_descriptor (a : ed_args) : obj :=
+  Obj k_md_EntityDescriptor
+      [at_ "entityID" (Some (ed_entityid a)); at_ "validUntil" (ed_valid_until a); at_ "cacheDuration" None; at_ "ID" None]
+      None
+      [(qm "Extensions", match ed_ext a with [] => [] | c => [Obj k_md_Extensions [] None [] c] end);
+       (qm "IDPSSODescriptor", map (ORaw (CK k_md_IDPSSODescriptor)) (opt_list (ed_idp a)));
+       (qm "SPSSODescriptor", map (ORaw (CK k_md_SPSSODescriptor)) (opt_list (ed_sp a)));
+       (qm "AuthnAuthorityDescriptor", map (ORaw (CK k_md_AuthnAuthorityDescriptor)) (opt_list (ed_aq a)));
+       (qm "AttributeAuthorityDescriptor", map (ORaw (CK k_md_AttributeAuthorityDescriptor)) (opt_list (ed_aa a)));
+       (qm "PDPDescriptor", map (ORaw (CK k_md_PDPDescriptor)) (opt_list (ed_pdp a)));
+       (qm "Organization", match ed_org a with Some (n, d, u) => [organization n d u] | None => [] end);
+       (qm "ContactPerson", map (ORaw (CK k_md_ContactPerson)) (ed_contacts a))]
+      [].
+
 (* ------------------------------------------------------------------ what the correspondence compares *)
 Inductive binfo :=
 | BOther
@@ -589,6 +647,7 @@ Inductive binfo :=
 | BAttributeQuery (a : aq_args)
 | BArtifactResolve (entityid artifact : string) (destination : option string) (consent : bool)
                    (extensions : option (list tree)) (sg : signing) (ob : observed)
+| BEntityDescriptor (a : ed_args)
 | BNameIDMappingResponse (entityid : string) (name_id : option tree) (irt : option string) (status : statusv)
                          (sg : signing) (ob : observed).
 
@@ -603,6 +662,7 @@ Definition model_obj (b : binfo) : option (option obj) :=
   | BResponse a => Some (response a)
   | BAttributeQuery a => Some (attribute_query a)
   | BArtifactResolve e ar d c x s o => Some (artifact_resolve e ar d c x s o)
+  | BEntityDescriptor a => Some (Some (entity_descriptor a))
   | BNameIDMappingResponse e n i _ s o => Some (name_id_mapping_response e n i s o)
   end.
 
